@@ -34,6 +34,14 @@ func genCase(t *rapid.T) Case {
 			sc.Steps = append(sc.Steps, world.Step{Op: "announce", P: st.P})
 		}
 	}
+	if rapid.IntRange(0, 7).Draw(t, "longsync") == 0 {
+		// a sync that outlives the idle-handler TTL, then more traffic for the same or another publisher
+		p := rapid.IntRange(0, k-1).Draw(t, "lsp")
+		q := rapid.IntRange(0, k-1).Draw(t, "lsq")
+		motif := []world.Step{{Op: "publish", P: p, N: 1}, {Op: "hold", P: p}, {Op: "announce", P: p}, {Op: "tick"}, {Op: "publish", P: q, N: 1}, {Op: "announce", P: q}, {Op: "open", P: p}}
+		at := rapid.IntRange(0, len(sc.Steps)).Draw(t, "lsat")
+		sc.Steps = append(sc.Steps[:at:at], append(motif, sc.Steps[at:]...)...)
+	}
 	return Case{Script: sc, Discovery: rapid.Bool().Draw(t, "discovery")}
 }
 
